@@ -210,15 +210,29 @@ def run(chk):
         return 3
 
     cg = NS(tx=NS(subcircuit=fake_subcircuit), sat=NS(model_count=fake_model_count, approx_model_count=fake_approx))
-    r = run_func(repo, "signal_probability", {pp[0]: c, pp[1]: "g", "approx": False, "kwargs": {}, "cg": cg}, file="props.py")
+    # these three obligations describe HOW the exact probability is obtained today (cone sub-circuit, counted under {n: True},
+    # normalised by the sub-circuit's startpoints).  An implementation that gets the value another way is decided by
+    # C08.P.value alone: if the counting helpers are never reached (or the body needs more of the circuit than these fakes
+    # offer) the shape obligations abstain with a note instead of raising an alarm.
+    from ..core import AnalysisError as _AE
+
+    try:
+        r = run_func(repo, "signal_probability", {pp[0]: c, pp[1]: "g", "approx": False, "kwargs": {}, "cg": cg}, file="props.py")
+    except _AE as e_:
+        r = None
+        chk.note(f"C08.P shape obligations abstain: signal_probability needs more than the counting helpers on the fake circuit ({str(e_)[:120]}); C08.P.value decides")
+    if r is not None and "mc_args" not in seen:
+        chk.note("C08.P shape obligations abstain: signal_probability did not reach sat.model_count on the fake circuit; C08.P.value decides")
+        r = None
     want = 3 / (2 ** 2)
-    chk.ob("C08.P.normalisation", "signal_probability::count / 2**len(startpoints of the counted circuit)", r == ("return", want), file="props.py", func="signal_probability", line=fp.node.lineno,
+    if r is not None:
+      chk.ob("C08.P.normalisation", "signal_probability::count / 2**len(startpoints of the counted circuit)", r == ("return", want), file="props.py", func="signal_probability", line=fp.node.lineno,
            fact={"result": str(r), "count": 3, "subcircuit_startpoints": 2, "parent_startpoints": 3}, expect=want)
-    sa = seen.get("sub_args")
-    chk.ob("C08.P.cone", "signal_probability::sub-circuit is the reflexive fan-in cone of n", bool(sa) and sa[0] is c and sa[1] == {"g", "a", "w", "u.q"}, file="props.py", func="signal_probability", line=fp.node.lineno,
+      sa = seen.get("sub_args")
+      chk.ob("C08.P.cone", "signal_probability::sub-circuit is the reflexive fan-in cone of n", bool(sa) and sa[0] is c and sa[1] == {"g", "a", "w", "u.q"}, file="props.py", func="signal_probability", line=fp.node.lineno,
            fact={"nodes": sorted(sa[1]) if sa else None}, expect=["a", "g", "u.q", "w"])
-    ma = seen.get("mc_args")
-    chk.ob("C08.P.assumption", "signal_probability::counts the sub-circuit under {n: True}", bool(ma) and ma[0] is subc and ma[1] == {"g": True} and ma[1]["g"] is True, file="props.py", func="signal_probability", line=fp.node.lineno,
+      ma = seen.get("mc_args")
+      chk.ob("C08.P.assumption", "signal_probability::counts the sub-circuit under {n: True}", bool(ma) and ma[0] is subc and ma[1] == {"g": True} and ma[1]["g"] is True, file="props.py", func="signal_probability", line=fp.node.lineno,
            fact={"assumptions": str(ma[1]) if ma else None, "counted_is_subcircuit": bool(ma) and ma[0] is subc}, expect="{'g': True} on the sub-circuit")
 
     # ---- P (values): exact signal probability of every node of model circuits, incl. nodes fed only by constants -----
@@ -233,6 +247,14 @@ def run(chk):
         "ties": build({"a": ("input", []), "z": ("0", []), "w": ("1", []), "nz": ("not", ["z"]), "bw": ("buf", ["w"]), "g": ("and", ["a", "nz"]), "k": ("nor", ["z", "bw"]), "x2": ("xor", ["nz", "bw"])}, outputs=["g", "k"]),
         "plain": build({"a": ("input", []), "b": ("input", []), "c": ("input", []), "g": ("or", ["a", "b"]), "h": ("xnor", ["g", "c"]), "n": ("not", ["g"])}, outputs=["h", "n"]),
     }
+    # tree-shaped cones (no reconvergent fan-out) whose gates see operands with probabilities other than 1/2: every gate type at
+    # fan-in 1, 2 and 3 over and2 / or2 / nand3 leaves
+    I_ = ("input", [])
+    for t_ in ("and", "nand", "or", "nor", "xor", "xnor"):
+        spec_ = {f"i{j}": I_ for j in range(7)}
+        spec_.update({"l0": ("and", ["i0", "i1"]), "l1": ("or", ["i2", "i3"]), "l2": ("nand", ["i4", "i5", "i6"]),
+                      "g1": (t_, ["l0"]), "g2": (t_, ["l1", "l2"]), "g3": (t_, ["g1", "g2", "i0x"]), "i0x": I_, "top": ("not", ["g3"])})
+        pmodels[f"tree::{t_}"] = build(spec_, outputs=["top"])
     from ..corpus import corpus
 
     for k_, tags, cc in corpus("quick", exclude=("x", "names", "wide")):
